@@ -51,6 +51,8 @@ def check(run):
         "K/C12: batch_add / Schedule are decided on TOY curves (y^2=x^3+2 over F_13, y^2=x^3+3 over F_31; odd group order, so no point with y=0: the code divides by 2y). "
         "The code is generic in C: CurveAffine and only uses C::Base field operations, so genericity is what transfers the statement to BLS12-381; the toy field is the bound. "
         "Preconditions taken from the callers: scheduled buckets are non-identity and pairwise distinct within a batch, bases are never the identity",
+        "K/C12: Schedule::add / execute / contains around batch_add: harnesses c12::schedule_p13_* exist (hook H7 VerifSchedule) but CBMC's symbolic execution does not "
+        "constant-fold the scheduler state through the heap and gives no result in 15 min; BucketAffine::assign (identity bucket takes the point) is therefore not covered either",
         "K/C12: the flush-when-full path of Schedule::add (64 pending entries need 64 distinct non-empty buckets), the Jacobian `Bucket` accumulation and the window summation of msm_best (projective group ops)",
         "K/C12: `bitreverse` is a nested fn of best_fft (not callable; the FFT as a linear map is engine S's obligation); the serial bucket accumulation of msm_serial (group arithmetic)",
         "K/C12: the full 256-bit telescoping identity follows from the per-window definition (proved for all scalars) by the algebra written in c12.rs; it is machine-checked here for 32-bit scalars only",
